@@ -286,7 +286,9 @@ class Loop(Node):
         return f'{type(self).__name__}({kwargs})'
 
     def copy_tree_structure(self, new_parent: Union['Loop', bool]=False) -> 'Loop':
-        return type(self)(parent=self.parent if new_parent is False else new_parent,
+        # without an explicit new_parent the copy is a tree of its own: recording self.parent (which does not list the
+        # copy) made a later edit of the copy patch the cached durations of that parent chain
+        return type(self)(parent=None if new_parent is False else new_parent,
                           waveform=self._waveform,
                           repetition_count=self._repetition_definition,
                           measurements=None if self._measurements is None else list(self._measurements),
@@ -465,6 +467,9 @@ class Loop(Node):
                 child_repetition_count=child._repetition_definition)
 
         self[:] = iter(child)
+        # the merged child no longer lists the children that moved to self: editing it through a reference the caller
+        # still holds (reverse_inplace, encapsulate, slice assignment) would renumber / re-parent nodes of this tree
+        Node.__setitem__(child, slice(None), ())
         self._waveform = child._waveform
         self._repetition_definition = repetition_definition
         self._measurements = measurements
